@@ -6,13 +6,15 @@ META = {
                     "set: xattr_array_update and ext2fs_xattrs_write are cut (cut_statics) and replaced by recording stubs; "
                     "xattr_array_update is verified by harness update, the serialiser under ext2fs_xattrs_write by harness rt",
                     "remove/get: xattr_inode_dec_ref is cut to a recording stub; it is verified by harness decref",
-                    "freeattr/adjust/decref: block and inode I/O, bitmaps (alloc_stats), punch are recording stubs with symbolic failures"],
+                    "freeattr/adjust/decref/prepblock/xwrite: block and inode I/O, the block allocator (ext2fs_find_inode_goal, ext2fs_alloc_block2), bitmaps (alloc_stats), punch are recording stubs with symbolic failures"],
     "outside": ["CREATING a value in an EA inode (xattr_create_ea_inode, in_inode = 1, the ea_inode retry of ext2fs_xattr_set); existing "
                 "EA-inode-backed attributes ARE covered: rt (image, hash, parser through a file stub), readbuf (accept/reject rules incl. the 64 KiB "
                 "limit), update/remove (space accounting, the reference is dropped exactly once and on the right inode), decref (release at count 0)",
-                "ext2fs_xattrs_write / ext2fs_xattrs_read_inode as wholes: placement of the region inside the inode (i_extra_isize), EA block "
-                "allocation and copy-on-write of shared blocks (prep_ea_block_for_write); giving a block back (ext2fs_free_ext_attr) and "
-                "ext2fs_adjust_ea_refcount3 ARE covered by freeattr/adjust",
+                "ext2fs_xattrs_write on large inodes (placement of the in-inode region by i_extra_isize, both regions written in one call) and "
+                "ext2fs_xattrs_read_inode as a whole; the block-writing tail of ext2fs_xattrs_write (128-byte inode), prep_ea_block_for_write "
+                "(allocate / reuse / un-share), ext2fs_free_ext_attr and ext2fs_adjust_ea_refcount3 ARE covered by xwrite/prepblock/freeattr/adjust",
+                "ext2fs_xattrs_write never gives an attribute block back when the block part becomes empty (it keeps an empty block; the release "
+                "branch is unreachable): consistent on disk, checked as such; the kernel's behaviour is available as -DSTRICT in prepblock.c",
                 "block checksum content (metadata_csum: stubbed verify/set), 64bit / huge_file / bigalloc variants of i_file_acl and i_blocks",
                 "POSIX ACL conversion (convert_posix_acl_to_disk_buffer and back)",
                 "interaction with inline data beyond ext2fs_xattr_set's system.data rule (block_free = 0, corrupted if found in the block part)",
@@ -141,7 +143,23 @@ def rb_cfgs():
     c.append({"K": 2, "LAYOUT": 0, "EAMASK": 0, "FEAT": 1, "S": 64, "_unwindset": rb_uw(2, 64, 0), "_tier": "thorough"})
     return c
 
+PB_UW = ["main.%d:65" % i for i in range(10)] + ["io_channel_read_blk64.0:65", "io_channel_write_blk64.0:65", "io_channel_write_blk64.1:65",
+         "write_xattrs_to_buffer.0:3", "strlen.0:8", "ext2fs_ext_attr_hash_entry.0:3", "ext2fs_ext_attr_hash_entry.1:3",
+         "ext2fs_ext_attr_hash_entry_signed.0:3", "ext2fs_ext_attr_hash_entry_signed.1:3"]
+
 HARNESSES = [
+    dict(name="prepblock", src="prepblock.c",
+         funcs=["prep_ea_block_for_write", "ext2fs_read_ext_attr3", "ext2fs_write_ext_attr3", "ext2fs_iblk_add_blocks", "ext2fs_file_acl_block_set"],
+         extra_src=["lib/ext2fs/blknum.c", "lib/ext2fs/i_block.c"],
+         configs=[{"MODE": 1}], unwind=3, unwindset=PB_UW, backends=["default", "kissat"],
+         bound="current block: 64 symbolic bytes (every magic, h_refcount 1..2^32-1, h_blocks); i_file_acl, i_blocks, goal, new block, "
+               "s_first_data_block, blocks_count symbolic 32-bit; symbolic read / write-back / allocation failures; block size 1024, no 64bit/huge_file/bigalloc"),
+    dict(name="xwrite", src="prepblock.c",
+         funcs=["ext2fs_xattrs_write", "prep_ea_block_for_write", "write_xattrs_to_buffer", "ext2fs_free_ext_attr", "ext2fs_write_ext_attr3"],
+         extra_src=["lib/ext2fs/blknum.c", "lib/ext2fs/i_block.c"],
+         configs=[{"MODE": 2}, {"MODE": 3}], witness_per_config=True, unwind=3, unwindset=PB_UW, backends=["default", "kissat"],
+         bound="as prepblock; 128-byte inode (no in-inode region), handle with one in-line attribute user.<1 char> (value 0..4 bytes) in the "
+               "block part (MODE 2) or an empty list (MODE 3); symbolic inode read/write failures"),
     dict(name="decref", src="decref.c",
          funcs=["xattr_inode_dec_ref", "ext2fs_free_ext_attr", "ext2fs_get_ea_inode_ref", "ext2fs_set_ea_inode_ref"],
          extra_src=["lib/ext2fs/blknum.c"],
@@ -214,7 +232,7 @@ MANIFEST = {
             "list edit and writes back once; entry and block hashes equal the format's definition for all inputs in the bound. "
             "Reference counts: a shared attribute block is written back with count-1 and released only by its last user; a value inode loses "
             "exactly one reference, on the right inode, and is released at 0; the parser accepts an entry iff it satisfies the stated rules "
-            "(value inode sizes up to 64 KiB inclusive). EA block allocation / copy-on-write and creation of value inodes are outside.",
+            "(value inode sizes up to 64 KiB inclusive). Writing the list allocates a block iff the inode has none or shares one, charges i_blocks one block iff it had none, and leaves the inode unwritten on any failure. Creation of value inodes is outside.",
     "note": "Trusted: CBMC's C semantics, the harness's restatement of the on-disk format (xa_common.h), the element-wise memmove model, "
             "bounds listed per harness in evidence/C15.json.",
 }
